@@ -516,9 +516,11 @@ class SciPyOptimizer(Optimizer):
             and self._config.variables.types is not None
             and "integrality" not in options
         ):
-            options["integrality"] = (
-                self._config.variables.types == VariableType.INTEGER
-            )
+            integrality = self._config.variables.types == VariableType.INTEGER
+            # Only the free variables are passed to the optimizer:
+            if self._config.variables.mask is not None:
+                integrality = integrality[self._config.variables.mask]
+            options["integrality"] = integrality
 
         return options
 
